@@ -204,8 +204,14 @@ theorem createTag_wt {s : Store} {ρ : ObjId → Role} (h : WT s ρ) (b : ObjId)
   cases x <;> simp only
   all_goals first | exact w | exact w.setAttr _ _ _
 
+theorem contains_ent_ent {ρ : ObjId → Role} {g t : ObjId} (hg : ∃ k, ρ g = .ent k) {k' : Kind} (ht : ρ t = .ent k') :
+    contains (ρ g) (ρ t) = false := by
+  obtain ⟨k, hk⟩ := hg
+  rw [hk, ht]; rfl
+
 theorem setArrayLink_wt {s : Store} {ρ : ObjId → Role} (h : WT s ρ) (holder b : ObjId) (f key : String)
-    (hf : childRole (ρ holder) f = some (.ent .A)) (hb : ρ b = .ent .B) : WT (setArrayLink s holder b f key).1 ρ := by
+    (he : ∃ k, ρ holder = .ent k) (hf : childRole (ρ holder) f = some (.ent .A)) (hb : ρ b = .ent .B) :
+    WT (setArrayLink s holder b f key).1 ρ := by
   unfold setArrayLink
   cases hk : blkFindKey s b "A" key with
   | none => exact h
@@ -213,7 +219,7 @@ theorem setArrayLink_wt {s : Store} {ρ : ObjId → Role} (h : WT s ρ) (holder 
     simp only
     have ⟨ha, hra⟩ := h.blkFindKey hb hk
     have hra' : ρ a = .ent .A := by rw [hra]; decide
-    exact h.replaceLink holder f a ha (by rw [hra']; exact hf) (by rw [hra']; simp)
+    exact h.replaceLink holder f a ha (by rw [hra']; exact hf) (by rw [hra']; simp) (contains_ent_ent he hra')
 
 theorem createMultiTag_wt {s : Store} {ρ : ObjId → Role} (h : WT s ρ) (b : ObjId) (n t i c : String) (ph : Option Handle)
     (hb : b < s.objs.length ∧ ρ b = .ent .B) :
@@ -242,7 +248,7 @@ theorem createMultiTag_wt {s : Store} {ρ : ObjId → Role} (h : WT s ρ) (b : O
               simp only
               have ⟨hg, hrg, hle⟩ := hres g rfl
               have hbk : bKind "M" = .M := by decide
-              have hl := setArrayLink_wt w g b "positions" (idOf s1 ph.obj)
+              have hl := setArrayLink_wt w g b "positions" (idOf s1 ph.obj) ⟨_, hrg⟩
                 (by rw [hrg, hbk]; simp [childRole]) (by rw [a b hb.1]; exact hb.2)
               generalize setArrayLink s1 g b "positions" (idOf s1 ph.obj) = r2 at hl
               obtain ⟨s2, y⟩ := r2
@@ -342,7 +348,7 @@ theorem createFeature_wt {s : Store} {ρ : ObjId → Role} (h : WT s ρ) (tag b 
           ((s.openGroupCreate tag "features").1.openGroupCreate (s.openGroupCreate tag "features").2 i).2 "created_at" c).setAttr
           ((s.openGroupCreate tag "features").1.openGroupCreate (s.openGroupCreate tag "features").2 i).2 "link_type" lt
         have hl := setArrayLink_wt w3 ((s.openGroupCreate tag "features").1.openGroupCreate (s.openGroupCreate tag "features").2 i).2 b "data" (idOf s dh.obj)
-          (by rw [r2]; simp [childRole]) (by rw [a2 b hk.2.2.1]; exact hk.2.2.2)
+          ⟨_, r2⟩ (by rw [r2]; simp [childRole]) (by rw [a2 b hk.2.2.1]; exact hk.2.2.2)
         generalize setArrayLink _ _ b "data" (idOf s dh.obj) = r at hl
         obtain ⟨s3, y⟩ := r
         cases y <;> exact hl
@@ -351,7 +357,7 @@ theorem createFeature_wt {s : Store} {ρ : ObjId → Role} (h : WT s ρ) (tag b 
 -- links
 
 theorem setSectionLink_wt {s : Store} {ρ : ObjId → Role} (h : WT s ρ) (holder : ObjId) (f id : String)
-    (hk : childRole (ρ holder) f = some (.ent .S)) : WT (setSectionLink s holder f id).1 ρ := by
+    (hk : (ρ holder).isEnt = true ∧ childRole (ρ holder) f = some (.ent .S)) : WT (setSectionLink s holder f id).1 ρ := by
   unfold setSectionLink
   split
   · exact h
@@ -360,16 +366,16 @@ theorem setSectionLink_wt {s : Store} {ρ : ObjId → Role} (h : WT s ρ) (holde
     | some t =>
       simp only
       have ⟨ht, hr⟩ := h.findSectionById hf
-      exact h.replaceLink holder f t ht (by rw [hr]; exact hk) (by rw [hr]; simp)
+      exact h.replaceLink holder f t ht (by rw [hr]; exact hk.2) (by rw [hr]; simp) (contains_ent_ent (Role.isEnt_iff hk.1) hr)
 
 theorem setExtents_wt {s : Store} {ρ : ObjId → Role} (h : WT s ρ) (mt b : ObjId) (key : String)
-    (hk : childRole (ρ mt) "extents" = some (.ent .A) ∧ ρ b = .ent .B) : WT (setExtents s mt b key).1 ρ := by
+    (hk : (ρ mt).isEnt = true ∧ childRole (ρ mt) "extents" = some (.ent .A) ∧ ρ b = .ent .B) : WT (setExtents s mt b key).1 ρ := by
   unfold setExtents
   cases hf : blkFindKey s b "A" key with
   | none => exact h
   | some a =>
     simp only
-    have ⟨ha, hra⟩ := h.blkFindKey hk.2 hf
+    have ⟨ha, hra⟩ := h.blkFindKey hk.2.2 hf
     have hra' : ρ a = .ent .A := by rw [hra]; decide
     cases hp : s.optGroup mt "positions" with
     | none => exact h
@@ -378,7 +384,7 @@ theorem setExtents_wt {s : Store} {ρ : ObjId → Role} (h : WT s ρ) (mt b : Ob
       repeat' split
       all_goals first
         | exact h
-        | exact h.replaceLink mt "extents" a ha (by rw [hra']; exact hk.1) (by rw [hra']; simp)
+        | exact h.replaceLink mt "extents" a ha (by rw [hra']; exact hk.2.1) (by rw [hra']; simp) (contains_ent_ent (Role.isEnt_iff hk.1) hra')
 
 theorem hasObject_false_free {s : Store} {c : ObjId} {id : String} (h : s.hasObject c id = false) :
     s.child? c id = none ∨ id.isEmpty = true := by
@@ -409,7 +415,7 @@ theorem addReference_wt {s : Store} {ρ : ObjId → Role} (h : WT s ρ) (tag b :
     split
     · exact w1
     · rename_i hob
-      refine w1.addLink _ _ a ha ?_ (hasObject_false_free (by simpa using hob))
+      refine w1.addLink _ _ a ha ?_ (hasObject_false_free (by simpa using hob)) (fun hc => by rw [r1, hra] at hc; cases hc)
       rw [r1, hra]; simp only [childRole]; decide
 
 theorem addSource_wt {s : Store} {ρ : ObjId → Role} (h : WT s ρ) (holder b : ObjId) (id : String)
@@ -436,7 +442,7 @@ theorem addSource_wt {s : Store} {ρ : ObjId → Role} (h : WT s ρ) (holder b :
       split
       · exact w1
       · rename_i hob
-        refine w1.addLink _ _ t ht ?_ (hasObject_false_free (by simpa using hob))
+        refine w1.addLink _ _ t ht ?_ (hasObject_false_free (by simpa using hob)) (fun hc => by rw [r1, hrt] at hc; cases hc)
         rw [r1, hrt]; simp only [childRole]
 
 theorem addMember_wt {s : Store} {ρ : ObjId → Role} (h : WT s ρ) (grp b : ObjId) (k n i : String)
@@ -457,7 +463,7 @@ theorem addMember_wt {s : Store} {ρ : ObjId → Role} (h : WT s ρ) (grp b : Ob
     split
     · exact w1
     · rename_i hob
-      refine w1.addLink _ _ t ht ?_ (hasObject_false_free (by simpa using hob))
+      refine w1.addLink _ _ t ht ?_ (hasObject_false_free (by simpa using hob)) (fun hc => by rw [r1, hrt] at hc; cases hc)
       rw [r1, hrt, hk.2.2.2.2]; simp only [childRole]
 
 -- ---------------------------------------------------------------------------------------------------------
@@ -585,7 +591,7 @@ theorem apply_wt {s : Store} {ρ : ObjId → Role} (h : WT s ρ) (op : Op) (hk :
   | createFeature tag b i c lt dh => simp only [Op.apply, fst_unitRes]; exact (createFeature_wt h tag b i c lt dh hk).1
   | setSectionLink holder f id => exact setSectionLink_wt h holder f id hk
   | unsetLink holder f => exact h.removeGroup holder f
-  | setArrayLink holder b f k => exact setArrayLink_wt h holder b f k hk.1 hk.2
+  | setArrayLink holder b f k => exact setArrayLink_wt h holder b f k (Role.isEnt_iff hk.1) hk.2.1 hk.2.2
   | setExtents m b k => exact setExtents_wt h m b k hk
   | addReference t b k => exact (addReference_wt h t b k hk).1
   | addSource holder b id => exact (addSource_wt h holder b id hk).1
